@@ -280,7 +280,7 @@ def handle : List String → String
         let storeRegion := (indexBytes.take (indexBytes.length - 8)).drop fstLen
         let store := openStore storeRegion
         let addrs := store.all
-        s!"{",".intercalate (addrs.map (fun a => s!"{a.firstOrd}:{a.start}:{a.stop}"))}|{showNats (os.map store.locateOrd)}|reenc={showBool (store.reencodeOk && reencodeStoreOk storeRegion)}"
+        s!"{",".intercalate (addrs.map (fun a => s!"{a.firstOrd}:{a.start}:{a.stop}"))}|{showNats (os.map store.locateOrd)}|reenc={showBool (store.reencodeOk && reencodeStoreOk storeRegion && reencodeStoreOwnOk storeRegion)}"
     | _, _ => "bad-op"
   | ["bitpack", vs, ws] =>
     match valList vs, valList ws with
